@@ -396,6 +396,16 @@ func (ms *Modules) Process() []error {
 	// Types are resolved against the modules known now, not against those
 	// known to an earlier call.
 	ms.typeDict.forgetResolved()
+	// Likewise the import and include statements: those that this call
+	// does not reach must not keep what an earlier call bound them to.
+	for _, m := range ms.loaded {
+		for _, i := range m.Include {
+			i.Module = nil
+		}
+		for _, i := range m.Import {
+			i.Module = nil
+		}
+	}
 
 	errs := ms.process()
 	if len(errs) > 0 {
